@@ -1010,6 +1010,37 @@ fn main() {
     if accepted == 0 || refused == 0 {
         run.machinery("vacuous: no accepted or no refused checked request was explored");
     }
+    // C07 also at the server level: real signed HTTP requests against a
+    // real in-process server (srvx engine), merged into this evidence
+    let mut server_level = Value::Null;
+    if prop == "C07" {
+        let frag = wd.path().join("srvx-fragment.json");
+        let srvx = std::env::current_exe().unwrap().with_file_name("srvx");
+        let st = std::process::Command::new(&srvx)
+            .args(["--prop", "C07", "--tier", args.tier.as_str()])
+            .env("VKIT_FRAGMENT", &frag)
+            .env_remove("VKIT_WORKER")
+            .env_remove("VKIT_INPUT")
+            .stdout(std::process::Stdio::null())
+            .status();
+        match st {
+            Ok(s) if s.success() => {
+                let v: Value = serde_json::from_slice(&std::fs::read(&frag).unwrap_or_default()).unwrap_or(json!({}));
+                if let Some(fs) = v["failures"].as_array() {
+                    for f in fs {
+                        run.fail_n(f["sig"].as_str().unwrap(), f["what"].as_str().unwrap(), f["witness"].clone(), f["count"].as_u64().unwrap_or(1));
+                    }
+                }
+                let c = &v["evidence"]["coverage"];
+                transitions += c["transitions"].as_u64().unwrap_or(0);
+                server_level = json!({"requests": c["transitions"], "expected_accepted": c["requests_expected_to_be_accepted"], "expected_refused": c["requests_expected_to_be_refused"], "rule": c["rule"], "samples": c["samples"]});
+                if c["transitions"].as_u64().unwrap_or(0) == 0 {
+                    run.machinery("vacuous: srvx explored no request");
+                }
+            }
+            other => run.machinery(format!("srvx fragment failed: {:?}", other)),
+        }
+    }
     run.assume("state abstraction: a state is the per-log sequence of event letters (old-time records distinguished); storage-internal identifiers (SQLite row ids, file offsets) are assumed not to influence future behaviour beyond what the oracles observe after every transition");
     run.assume("SQLite itself and the OS file system are trusted base");
     let mut cov = Map::new();
@@ -1022,6 +1053,7 @@ fn main() {
     cov.insert("levels".into(), json!(per_level));
     cov.insert("unexpanded_frontier_at_bound".into(), json!(frontier.len()));
     cov.insert("operations_by_kind".into(), json!(op_kinds));
+    cov.insert("server_level_requests".into(), server_level);
     cov.insert("checked_requests_on_agreed_base".into(), json!(accepted));
     cov.insert("requests_the_model_refuses".into(), json!(refused));
     cov.insert("explanation".into(), json!("breadth-first search over the real FileSystemEventLog and DatabaseEventLog in lock-step; three co-resident folder logs (two accounts); every transition re-executed on fresh storage by replaying the history; all oracles evaluated after every transition on every log; every transition is an execution of the implementation, so traces_validated_against_impl = transitions"));
@@ -1031,6 +1063,15 @@ fn main() {
 fn replay(path: &Path, prop: &str) -> i32 {
     let v: Value =
         serde_json::from_slice(&std::fs::read(path).expect("read")).unwrap();
+    if v["witness"]["engine"].as_str() == Some("srvx") {
+        let srvx = std::env::current_exe().unwrap().with_file_name("srvx");
+        let st = std::process::Command::new(&srvx)
+            .args(["--prop", "C07", "--replay"])
+            .arg(path)
+            .status()
+            .expect("run srvx");
+        return st.code().unwrap_or(2);
+    }
     let hist: Vec<Op> =
         serde_json::from_value(v["witness"]["history"].clone()).unwrap();
     let want_sig = v["signature"].as_str().unwrap_or("").to_string();
